@@ -525,12 +525,161 @@ def reattach_defs(tree, consts):
     return [d1, d2, d3, skeleton]
 
 
+# ---------------------------------------------------------------------------------------------------------------------
+# (7) VMNetwork.integrate_node -> genIntegrateTest / genIntegrateFound / genIntegrateNew / genFindNc / genPlace /
+#     genPlaceAll / genIntegrateNode                                                              (integrateNode)
+#
+#   prefix (pinned verbatim)    the two guards (`node in self.nodes`, `len(node.interfaces) > 0`: a node is integrated once)
+#                               and the FIRST loop, which creates one new interface object per nic: in the model the ids
+#                               `first … first+count-1` in creation order, none of them attached
+#   second loop                 `for interface in node.interfaces.values():` with ONE statement besides logging, the
+#                               for/else over `self.netconfigs.values()`: `if <test>: <found part>; break` /
+#                               `else: <new part>`; test, found part and new part are translated, the for/else (first
+#                               registered netconfig that passes the test, else the new part) is the fixed skeleton
+
+INTEGRATE_PRELUDE = [
+    "/-- `<netconfig n>.can_add_interface(<interface i>)` (genCanAdd on the current objects) -/",
+    "def canAddM (n i : Nat) : NetM Bool := fun s =>",
+    "  match genCanAdd (s.nc n) i (s.iface i) with | .error e => .error e | .ok b => .ok (b, s)",
+    "/-- `self.new_netconfig()`: a new netconfig object (the next id), nothing set yet -/",
+    "def newNetconfig : NetM Nat := fun s =>",
+    "  .ok (s.nNc, { s with nNc := s.nNc + 1, nc := fun m => if m = s.nNc then default else s.nc m })",
+    "/-- `<netconfig n>.from_interface(<interface i>)` (the hand model's `fromInterface`: every attribute is set) -/",
+    "def fromInterfaceM (n i : Nat) : NetM Unit := fun s => .ok ((), s.setNc n (fun _ => fromInterface (s.iface i)))",
+    "/-- `self.netconfigs[<netconfig n>.net_ip] = <netconfig n>` -/",
+    "def registerNc (n : Nat) : NetM Unit := fun s => .ok ((), { s with reg := aset (s.nc n).netIp n s.reg })",
+    "/-- `self.netconfigs.values()` when the loop starts -/",
+    "def registered : NetM (List (Nat × Nat)) := fun s => .ok (s.reg, s)",
+]
+
+INTEGRATE_PREFIX = """
+if node in self.nodes:
+    raise AssertionError('The vm node has already been integrated')
+if len(node.interfaces) > 0:
+    raise AssertionError('The integrated vm node must not have any initialized interfaces')
+for nic_name in node.platform.params.objects('nics'):
+    ikey = '%s.%s' % (node.name, nic_name)
+    nic_params = node.platform.params.object_params(nic_name)
+    new_interface = self.new_interface(nic_name, nic_params)
+    node.interfaces[nic_name] = new_interface
+    self.interfaces[ikey] = new_interface
+    self.interfaces[ikey].node = node
+    logging.debug('Generated interface {0}: {1}'.format(ikey, self.interfaces[ikey]))
+"""
+INTEGRATE_FOUND_STMTS = {"netconfig.add_interface(interface)": "genAddInterface n i"}
+INTEGRATE_NEW_STMTS = {
+    "netconfig = self.new_netconfig()": "let n ← newNetconfig",
+    "netconfig.from_interface(interface)": "fromInterfaceM n i",
+    "netconfig.add_interface(interface)": "genAddInterface n i",
+    "self.netconfigs[netconfig.net_ip] = netconfig": "registerNc n",
+}
+INTEGRATE_DOC = "`VMNetwork.integrate_node` of avocado_i2n/vmnet/network.py, cut by harness/pygen_pxnet.py: "
+
+
+def _strip_logs(stmts, where):
+    """drop `logging.debug(<message>)` statements whose message only reads (constants, names, attributes and
+    `"…".format(…)` of those): no effect on the registry"""
+    out = []
+    for st in stmts:
+        if not _is_log(st):
+            out.append(st)
+            continue
+        for a in list(st.value.args) + [k.value for k in st.value.keywords]:
+            for n in ast.walk(a):
+                ok = isinstance(n, (ast.Constant, ast.Name, ast.Attribute, ast.Load)) or (
+                    isinstance(n, ast.Call) and isinstance(n.func, ast.Attribute) and n.func.attr == "format"
+                    and isinstance(n.func.value, ast.Constant) and not n.keywords)
+                if not ok:
+                    raise Unsupported(f"{where}: the message of `{ast.unparse(st)[:60]}` is not a plain message")
+    return out
+
+
+def _no_names_bound(stmts, allowed, where):
+    for st in stmts:
+        for n in ast.walk(st):
+            if isinstance(n, ast.Name) and isinstance(n.ctx, (ast.Store, ast.Del)) and n.id not in allowed:
+                raise Unsupported(f"{where}: `{ast.unparse(st)[:60]}` binds the local {n.id!r} inside a translated part")
+
+
+def integrate_defs(tree, consts):
+    fn = pygen.find_function(tree, "VMNetwork.integrate_node")
+    _args(fn, ["self", "node"])
+    where = f"integrate_node:{fn.lineno}"
+    body = _strip_logs(_body(fn), where)
+    if len(body) != 4:
+        raise Unsupported(f"{where}: {len(body)} statements besides logging (expected: two guards and two loops)")
+    _pinned(body[:3], INTEGRATE_PREFIX, where, "the guards / the loop that creates the interface objects")
+    outer = body[3]
+    if not isinstance(outer, ast.For) or outer.orelse or ast.unparse(outer.target) != "interface" \
+            or ast.unparse(outer.iter) != "node.interfaces.values()":
+        raise Unsupported(f"{where}: the second loop is no longer `for interface in node.interfaces.values():`")
+    obody = _strip_logs(outer.body, where)
+    if len(obody) != 1 or not isinstance(obody[0], ast.For):
+        raise Unsupported(f"{where}: the body of the second loop is no longer the one for/else over the netconfigs")
+    loop = obody[0]
+    if ast.unparse(loop.target) != "netconfig" or ast.unparse(loop.iter) != "self.netconfigs.values()":
+        raise Unsupported(f"{where}: the inner loop is no longer `for netconfig in self.netconfigs.values():`")
+    if len(loop.body) != 1 or not isinstance(loop.body[0], ast.If) or loop.body[0].orelse \
+            or len(loop.body[0].body) < 2 or not isinstance(loop.body[0].body[-1], ast.Break):
+        raise Unsupported(f"{where}: the inner loop body is no longer `if <test>: <statements>; break`")
+    if not loop.orelse:
+        raise Unsupported(f"{where}: the inner loop lost its `else` (a new netconfig for an interface that fits nowhere)")
+    test, found, new = loop.body[0].test, _strip_logs(loop.body[0].body[:-1], where), _strip_logs(loop.orelse, where)
+    if not found or not new:
+        raise Unsupported(f"{where}: the found part / the new part of the inner loop is empty")
+    _no_jumps(found, where)
+    _no_jumps(new, where)
+    _no_names_bound(found, (), where)
+    _no_names_bound(new, ("netconfig",), where)
+    test_fn = _synth("integrate_node_test", [], [ast.Return(value=test)], loop)
+    test_spec = Spec("genIntegrateTest", binders=[("n", "Nat"), ("i", "Nat")], params={}, ret="bool", monad="NetM",
+                     atoms={"netconfig.can_add_interface(interface)": ("canAddM n i", "bool", "raises")},
+                     doc=INTEGRATE_DOC + "the test of `for netconfig in self.netconfigs.values(): if <test>:`; `n` = "
+                                         "netconfig, `i` = interface")
+    found_fn = _synth("integrate_node_found", [], found, loop)
+    found_spec = Spec("genIntegrateFound", binders=[("n", "Nat"), ("i", "Nat")], params={}, ret="unit", monad="NetM",
+                      stmts=INTEGRATE_FOUND_STMTS, ignored_calls=("logging.debug",),
+                      doc=INTEGRATE_DOC + "the statements of the `if` in front of its `break`")
+    new_fn = _synth("integrate_node_new", [], new, loop)
+    new_spec = Spec("genIntegrateNew", binders=[("i", "Nat")], params={}, ret="unit", monad="NetM",
+                    stmts=INTEGRATE_NEW_STMTS, ignored_calls=("logging.debug",),
+                    doc=INTEGRATE_DOC + "the `else` of the inner loop (no registered netconfig takes the interface)")
+    d1 = pygen.translate(test_fn, test_spec, consts)
+    d2 = pygen.translate(found_fn, found_spec, consts)
+    d3 = pygen.translate(new_fn, new_spec, consts)
+    skeleton = [
+        "/-- the inner for/break of `integrate_node` (matched structurally): the first registered netconfig, in the order",
+        "of the dictionary, that passes `genIntegrateTest` (the test may raise, which ends the call) -/",
+        "def genFindNc (i : Nat) : List (Nat × Nat) → NetM (Option Nat)",
+        "  | [] => pure none",
+        "  | (_, n) :: rest => do",
+        "    if (← genIntegrateTest n i) then return some n",
+        "    genFindNc i rest",
+        "/-- the body of `for interface in node.interfaces.values():` — the for/else: the found part for the first netconfig",
+        "that passes the test (then `break`), the `else` part when none does -/",
+        "def genPlace (i : Nat) : NetM Unit := do",
+        "  match (← genFindNc i (← registered)) with",
+        "  | some n => genIntegrateFound n i",
+        "  | none => genIntegrateNew i",
+        "def genPlaceAll : List Nat → NetM Unit",
+        "  | [] => pure ()",
+        "  | i :: rest => do",
+        "    genPlace i",
+        "    genPlaceAll rest",
+        "/-- `integrate_node` for a node whose (new, pinned first loop) interface objects are `first … first+count-1`, in",
+        "the order of `node.interfaces.values()` -/",
+        "def genIntegrateNode (first count : Nat) : NetM Unit := genPlaceAll (List.range' first count)",
+    ]
+    return [INTEGRATE_PRELUDE, d1, d2, d3, skeleton]
+
+
 def network_source(path=None):
     path = path or pygen._src("PYGEN_NETWORK_SRC", NETWORK)
     tree = ast.parse(open(path).read(), filename=path)
     consts = pygen.module_constants(tree)
     defs = [NETWORK_PRELUDE]
     defs += reattach_defs(tree, consts)
+    defs += integrate_defs(tree, consts)
     return pygen.render_file("harness/pygen_pxnet.py:extract_net (called by harness/props/c18.py:extract) from "
                              "avocado_i2n/vmnet/network.py", ["I2N.Extracted.GenNet"], "I2N.Extracted.GenNetwork",
                              ["I2N.Net", "I2N.Extracted.GenNet"], defs)
